@@ -252,6 +252,37 @@ func gen(seed uint64, tier string) {
 		}
 		fmt.Fprintf(out, "dec x%s\n", hex.EncodeToString(buf))
 	}
+	// header bytes outside the OGC layout: a byte-order flag other than 0/1 and a type code other than 1..7,
+	// at the top level and at the first nested element (counts are untouched, so nothing large is allocated)
+	for i := 0; i < 12; i++ {
+		g := genGeom(r, 2)
+		o := []string{"X", "N"}[i%2]
+		buf, err := wkb.Encode(g, bo(o))
+		if err != nil || len(buf) > 4000 {
+			continue
+		}
+		for _, at := range []int{0, 9} { // 9 = flag of the first member of a Multi*/collection
+			if at+5 > len(buf) {
+				continue
+			}
+			switch g.(type) {
+			case geom.Point, geom.LineString, geom.Polygon:
+				if at != 0 {
+					continue
+				}
+			}
+			for _, fl := range []byte{2, 3, 0x80, 0xff} {
+				b := append([]byte{}, buf...)
+				b[at] = fl
+				fmt.Fprintf(out, "dec x%s\n", hex.EncodeToString(b))
+			}
+			for _, code := range []uint32{0, 8, 15, 16, 17, 1000, 0x01000000, 0x80000001} {
+				b := append([]byte{}, buf...)
+				bo(o).PutUint32(b[at+1:], code)
+				fmt.Fprintf(out, "dec x%s\n", hex.EncodeToString(b))
+			}
+		}
+	}
 }
 
 func result(g geom.Geom, err error, pan string) string {
